@@ -507,6 +507,8 @@ def method(ctx, flavours):
         cands = [b for b in F.by_flavour(fl) if b['kind'] != 'Closure' and not b['impl_trait'] and b['argc'] == 2 and
                  F.adts.get(b['impl_self_q'], {}).get('kind') == 'Enum' and F.types[b['locals'][0]]['s'] == 'bool' and
                  any(any(tt['k'] == 'dyn' for tt in F.ty_walk(f['ty'])) for v in F.adts[b['impl_self_q']]['variants'] for f in v['fields'])]
+        if len(cands) > 1:
+            cands = [b for b in cands if b['q'] not in getattr(F, 'absorbed', ())] or cands
         if len(cands) != 1:
             out.append(Obl('METHOD', fl, 'src/%s/node/algo/method.rs' % fl, 'exec function', False, 'expected one callback dispatcher, found %d' % len(cands)))
             continue
@@ -515,75 +517,101 @@ def method(ctx, flavours):
         adt = F.adts[b['impl_self_q']]
         vnames = [v['name'] for v in adt['variants']]
         vfields = {v['name']: v['fields'] for v in adt['variants']}
-        # the discriminant switch on *self
-        sw = None
-        for bi, bb in enumerate(b['blocks']):
-            t = bb['term']
-            if t['k'] == 'switch' and bi in cfg.reach:
-                term = pv.of_operand(t['op'])
-                if isinstance(term, tuple) and term[0] == 'discr' and strip_payload(term[1]) == ('param', 1):
-                    sw = (bi, t)
-        if sw is None:
+        # per callback kind: walk the dispatcher with the discriminant of *self fixed to that kind (one switch, or several when the
+        # dispatcher is written as per-kind steps run back to back) and look at the closure calls and the value returned on the way
+        def is_self_discr(t):
+            term = pv.of_operand(t['op'])
+            return isinstance(term, tuple) and term[0] == 'discr' and strip_payload(term[1]) == ('param', 1)
+        if not any(bb['term']['k'] == 'switch' and bi in cfg.reach and is_self_discr(bb['term']) for bi, bb in enumerate(b['blocks'])):
             out.append(Obl('METHOD', b['q'], b['span'], 'dispatch on the callback kind', False, 'no switch on the enum discriminant'))
             continue
-        sbi, st = sw
-        arms = {}
-        for v, tg in st['targets']:
-            arms[vnames[v]] = tg
-        rest = [n for i, n in enumerate(vnames) if n not in arms]
-        if len(rest) == 1 and b['blocks'][st['otherwise']]['term']['k'] != 'unreachable':
-            arms[rest[0]] = st['otherwise']
-        dyn_calls = [(bi, t) for bi, t in calls_in(b) if ctx.G().user_kind(t) == 'callback']
-        for vn in vnames:
+        G_ = ctx.G()
+
+        def paths_for(vi):
+            res = []
+            def go(bi, calls, env, seen, first):
+                while True:
+                    if bi in seen or len(res) > 64:
+                        return
+                    seen = seen | {bi}
+                    bb = b['blocks'][bi]
+                    for s_ in bb['stmts']:
+                        if s_['k'] == 'assign' and not s_['dst']['p']:
+                            rv = s_['rv']
+                            if rv['k'] == 'use' and rv['ops']:
+                                o = rv['ops'][0]
+                                if o.get('k') in ('move', 'copy') and not o['pl']['p']:
+                                    env = dict(env); env[s_['dst']['l']] = env.get(o['pl']['l'], ('?', o['pl']['l']))
+                                elif o.get('v') in ('const true', 'true'):
+                                    env = dict(env); env[s_['dst']['l']] = 'TRUE'
+                                else:
+                                    env = dict(env); env[s_['dst']['l']] = ('?', 'expr')
+                            else:
+                                env = dict(env); env[s_['dst']['l']] = ('?', rv['k'])
+                    t = bb['term']
+                    if t['k'] == 'return':
+                        res.append((calls, env.get(0), first))
+                        return
+                    if t['k'] == 'call':
+                        if G_.user_kind(t) == 'callback':
+                            calls = calls + [(bi, t)]
+                            if not t['dst']['p']:
+                                env = dict(env); env[t['dst']['l']] = ('CALL', bi)
+                        elif not t['dst']['p']:
+                            env = dict(env); env[t['dst']['l']] = ('?', 'call')
+                        if t.get('target', -1) < 0:
+                            return
+                        bi = t['target']; continue
+                    if t['k'] == 'switch':
+                        if is_self_discr(t):
+                            tg = [g for v, g in t['targets'] if v == vi]
+                            nxt = tg[0] if tg else t['otherwise']
+                            if first is None:
+                                first = nxt
+                            bi = nxt; continue
+                        for g in sorted({g for _, g in t['targets']} | {t['otherwise']}):
+                            go(g, calls, env, seen, first)
+                        return
+                    if t['k'] in ('goto', 'drop', 'assert') and t.get('target', -1) >= 0:
+                        bi = t['target']; continue
+                    return
+            go(0, [], {}, frozenset(), None)
+            return res
+        for vi, vn in enumerate(vnames):
             inst = 'variant %s' % vn
-            if vn not in arms:
+            ps = paths_for(vi)
+            if not ps:
                 out.append(Obl('METHOD', b['q'], b['span'], inst, False, 'no arm'))
                 continue
-            tg = arms[vn]
-            region = cfg.reachable_from(tg)
-            # blocks exclusive to this arm: reachable from tg but not from other arms' targets
-            others = set()
-            for on, otg in arms.items():
-                if on != vn:
-                    others |= cfg.reachable_from(otg)
-            excl = region - others
-            calls_here = [(bi, t) for bi, t in dyn_calls if bi in excl]
-            # return value on this arm
-            rets = []
-            for bi in sorted(excl):
-                for s in b['blocks'][bi]['stmts']:
-                    if s['k'] == 'assign' and s['dst']['l'] == 0 and not s['dst']['p']:
-                        rets.append((bi, s['rv']))
+            tg = ps[0][2] if ps[0][2] is not None else 0
             why = []
             carries_bool = any(re.search(r'-> bool', F.types[f['ty']]['s']) for f in vfields[vn])
             carries_dyn = any(any(tt['k'] == 'dyn' for tt in F.ty_walk(f['ty'])) for f in vfields[vn])
-            if not carries_dyn:
-                if calls_here:
-                    why.append('calls a closure although the variant carries none')
-                if not (len(rets) == 1 and rets[0][1]['k'] == 'use' and rets[0][1]['ops'][0].get('v') in ('const true', 'true')):
-                    why.append('does not return constant true')
-            else:
-                if len(calls_here) != 1:
-                    why.append('%d closure calls (expected exactly one)' % len(calls_here))
+            for calls_here, ret, _ in ps:
+                w = []
+                if not carries_dyn:
+                    if calls_here:
+                        w.append('calls a closure although the variant carries none')
+                    if ret != 'TRUE':
+                        w.append('does not return constant true')
                 else:
-                    cbi, ct = calls_here[0]
-                    # the callback runs for *every* edge handed to the dispatcher: no path through this arm reaches the return without it
-                    if tg != cbi and any(cfg.path_exists(tg, rb_, avoiding={cbi}) for rb_ in cfg.returns):
-                        why.append('the closure call is conditional: some edges are never handed to the callback')
-                    # argument tuple carries the edge parameter
-                    argt = pv.of_operand(ct['args'][1]) if len(ct['args']) > 1 else None
-                    if not term_mentions(argt, lambda z: z == ('param', 2)):
-                        why.append('closure is not called with the edge argument')
-                    if carries_bool:
-                        # the return value is the call result, un-negated
-                        ok = len(rets) == 1 and rets[0][1]['k'] == 'use' and rets[0][1]['ops'][0]['k'] in ('move', 'copy') and \
-                            rets[0][1]['ops'][0]['pl']['l'] == ct['dst']['l']
-                        ok = ok or (not rets and ct['dst']['l'] == 0)
-                        if not ok:
-                            why.append('return value is not the closure result itself')
+                    if len(calls_here) == 0 and any(len(c2) for c2, _, _ in ps):
+                        w.append('the closure call is conditional: some edges are never handed to the callback')
+                    elif len(calls_here) != 1:
+                        w.append('%d closure calls (expected exactly one)' % len(calls_here))
                     else:
-                        if not (len(rets) == 1 and rets[0][1]['k'] == 'use' and rets[0][1]['ops'][0].get('v') in ('const true', 'true')):
-                            why.append('does not return constant true')
+                        cbi, ct = calls_here[0]
+                        argt = pv.of_operand(ct['args'][1]) if len(ct['args']) > 1 else None
+                        if not term_mentions(argt, lambda z: z == ('param', 2)):
+                            w.append('closure is not called with the edge argument')
+                        if carries_bool:
+                            if ret != ('CALL', cbi):
+                                w.append('return value is not the closure result itself')
+                        elif ret != 'TRUE':
+                            w.append('does not return constant true')
+                for x in w:
+                    if x not in why:
+                        why.append(x)
             out.append(Obl('METHOD', b['q'], b['blocks'][tg]['term']['sp'], inst, not why, '; '.join(why) if why else 'ok'))
     return out
 
